@@ -251,6 +251,10 @@ def make_job(sde_type, noise, B, d, m, grad_enabled):
         for name, got in results.items():
             ga = got.a.reshape(-1)
             wa = want[name]
+            # the adjoint state is one batch row: every vector field returns shape (1, n) like y_aug
+            if tuple(got.a.shape) != tuple(y_aug.a.shape):
+                rep.add(f'{tag}/{name}.shape-of-the-augmented-state', 'post', 'refuted', 'pyvc-exec', model={'got': str(got.a.shape), 'want': str(y_aug.a.shape)})
+                continue
             if ga.shape != wa.shape:
                 rep.add(f'{tag}/{name}.shape', 'post', 'refuted', 'pyvc-exec', model={'got': str(got.a.shape), 'want': str(wa.shape)})
                 continue
